@@ -242,6 +242,11 @@ FailRes(h, st, ev) ==
   \cup Sel(ev.status \in {0, 1, 2, 3, 4, 5, 6, -1, -2} /\ ev.midx = ev.status, "C07.code")
   \cup Sel(ev.status = 0 => (ev.hasfw /\ ev.resol = ev.rhoend), "C07.s0")
   \cup Sel(ev.status = 1 => (Le(ev.f, h.kTarget) /\ Le(ev.cv, h.kTol)), "C07.s1")
+  \* ... feasible for the constraints AS THE USER STATED THEM (lower edge of the true-violation band)
+  \cup Sel((ev.status \in {1, 4} /\ atXF # {}) => \E i \in atXF : IsNaN(st.Lo[i]) \/ Le(st.Lo[i], h.kTol),
+           "C07.truefeasible")
+  \cup Sel((ev.success /\ ev.status \in {0, 2, 3} /\ atXF # {}) =>
+             \E i \in atXF : IsNaN(st.Lo[i]) \/ Le(st.Lo[i], h.kTol), "C07.truefeasible")
   \cup Sel(ev.status = 2 => h.allfixed, "C07.s2")
   \cup Sel(ev.status = 3 => st.cbRaised, "C07.s3")
   \cup Sel(ev.status = 4 => (~h.hasobj /\ Le(ev.cv, h.kTol)), "C07.s4")
